@@ -364,8 +364,8 @@ Definition ptrs : list (N * N) :=
 
 (** the runner's table, unpacked: one observation per (CurrINF, CurrHF) in the order of [ptrs],
     two 30-bit entries per integer *)
-Definition unpack_table (ws : list int) : list obs :=
-  map unpack (unpack_ints 30%uint63 1073741823%uint63 2 ws).
+Definition unpack_table (ws : list (list int)) : list obs :=
+  map unpack (unpack_ints 30%uint63 1073741823%uint63 2 (concat ws)).
 
 Definition table_agree (b : base) (os : list obs) : bool :=
   Nat.eqb (length os) (length ptrs) &&
@@ -397,7 +397,10 @@ Definition n64 : list N := map N.of_nat (seq 0 64).
 Definition acc_entries (f : meta -> N) (s0 : N) : list N :=
   flat_map (fun s1 => map (fun s2 => f (shape_meta s0 s1 s2)) n64) n64.
 (** five 12-bit entries per integer *)
-Definition unpack_acc (ws : list int) : list N := unpack_ints 12%uint63 4095%uint63 5 ws.
+Definition unpack_acc (ws : list (list int)) : list N := unpack_ints 12%uint63 4095%uint63 5 (concat ws).
+(** a walk: [n] values of two bits (3 = anything above 2), thirty per integer *)
+Definition unpack_walk (n : N) (ws : list int) : list N :=
+  firstn (N.to_nat n) (unpack_ints 2%uint63 3%uint63 30 ws).
 
 Definition nlist_eqb := list_eqb N.eqb.
 
@@ -439,11 +442,11 @@ Inductive case :=
 (* MetaHdr.SerializeTo on arbitrary uint8 field values *)
 | CEnc (ci ch s0 s1 s2 : N) (impl : N)
 (* Base.DecodeFromBytes for one SegLen[0] and all 64 x 64 (SegLen[1], SegLen[2]), packed *)
-| CAccept (s0 : N) (impl : list int)
+| CAccept (s0 : N) (impl : list (list int))
 (* all 4 x 64 pointer values on one accepted shape: NumINF, NumHops, the packed observations *)
-| CShape (s0 s1 s2 : N) (ninf nhops : N) (impl : list int)
-(* the walk from hop 0 with IncPath until it fails: CurrINF at every position *)
-| CWalk (s0 s1 s2 : N) (impl : list N)
+| CShape (s0 s1 s2 : N) (ninf nhops : N) (impl : list (list int))
+(* the walk from hop 0 with IncPath until it fails: CurrINF at every position (count, packed values) *)
+| CWalk (s0 s1 s2 : N) (n : N) (impl : list int)
 (* a full path: word, buffer length, contents; decode result as seen through Decoded and through Raw
    (None = rejected), the results of Reverse on each (applied once and twice), Decoded.Reverse followed by
    ToRaw, and the ToRaw/ToDecoded round trip *)
@@ -526,8 +529,9 @@ Definition check (c : case) : N :=
                      table_oracle m nhops os)
     | None => Check.verdict false (negb (shape_ok m))   (* the runner only sends accepted shapes *)
     end
-  | CWalk s0 s1 s2 impl =>
+  | CWalk s0 s1 s2 n ws =>
     let m := shape_meta s0 s1 s2 in
+    let impl := unpack_walk n ws in
     match base_decode m with
     | Some b => Check.verdict (nlist_eqb (walk 300 (start b)) impl)
                               ((num_hops b =? 0) || nlist_eqb (seg_map m) impl)
@@ -578,7 +582,7 @@ Definition diag (c : case) : list N :=
                   (combine ptrs (unpack_table impl)))
     | None => []
     end
-  | CWalk s0 s1 s2 _ =>
+  | CWalk s0 s1 s2 _ _ =>
     match base_decode (shape_meta s0 s1 s2) with Some b => walk 300 (start b) | None => [] end
   | CPath w datalen is hs _ _ _ _ _ _ _ _ =>
     match path_decode w datalen is hs with
